@@ -89,6 +89,10 @@ func (b *hBook) pathSum(n, leaf string, fuel int) (float64, bool) {
 func hBuildBook(K, M, L int) (shared.DBNodeMap, *hBook) {
 	recipes := []string{"r0", "r1", "r2", "r3", "r4"}[:K]
 	leaves := []string{"x", "y", "z"}[:L]
+	if verifBound("oddleaves", 0) == 1 {
+		// element names that share a prefix followed by '/' in one and by a lower byte in the others
+		leaves = []string{"f/s", "f t", "f.r"}[:L]
+	}
 	// interleave so that names sort in mixed order: leaves x,y,z sort after r*; add a leaf "a" style by renaming
 	db := shared.NewDBNodeMap()
 	ref := &hBook{names: recipes, rec: map[string][]hIng{}}
@@ -127,6 +131,30 @@ func hResolveAPI(api int, N int, db shared.DBNodeMap) (shared.DBNodeMap, error) 
 	if api == 0 {
 		return Resolve(Config{MaxDepth: N}, db)
 	}
+	if api == 2 {
+		// the Resolver is created on the book before its last recipes are pushed
+		var held []*shared.DBNode
+		var names []string
+		for name := range db {
+			names = append(names, name)
+		}
+		for i := 1; i < len(names); i++ {
+			for j := i; j > 0 && names[j] < names[j-1]; j-- {
+				names[j], names[j-1] = names[j-1], names[j]
+			}
+		}
+		if len(names) > 1 {
+			last := names[len(names)-1]
+			held = append(held, db[last])
+			delete(db, last)
+		}
+		r := NewResolver(db, Config{MaxDepth: N})
+		for _, n := range held {
+			db.Push(n)
+		}
+		err := r.Resolve()
+		return db, err
+	}
 	r := NewResolver(db, Config{MaxDepth: N})
 	err := r.Resolve()
 	return db, err
@@ -137,7 +165,7 @@ func hResolveAPI(api int, N int, db shared.DBNodeMap) (shared.DBNodeMap, error) 
 func Harness_C01_resolve() {
 	K, M, L := verifBound("K", 3), verifBound("M", 2), verifBound("L", 1)
 	N := verifBound("N", 10)
-	api := verifChoose("api", 2)
+	api := verifChoose("api", 2+verifBound("lateapi", 0))
 	db, ref := hBuildBook(K, M, L)
 	chain := ref.longestChain(N + 1)
 	verifAssume(chain < N)
@@ -187,6 +215,9 @@ func Harness_C01_resolve() {
 		}
 		for _, e := range got {
 			verifAssert("only-leaves", !ref.isRecipe(e.Name))
+		}
+		if verifBound("oddleaves", 0) == 1 {
+			leaves = []string{"f/s", "f t", "f.r"}[:L]
 		}
 		for _, l := range leaves {
 			want, reach := ref.pathSum(r, l, N+1)
@@ -263,6 +294,22 @@ func Harness_C11_depth() {
 		verifLabel("chain-vs-N", "chain>N")
 	}
 	verifLabel("K", hItoa(K))
+	if verifBound("prelude", 0) == 1 && verifChoose("prelude", 2) == 1 {
+		// an earlier failing resolution (one self-referencing recipe among plain ones with the same
+		// names) in the same process must not change the outcome
+		pre := shared.NewDBNodeMap()
+		bad := verifChoose("prelude-cyclic-recipe", len(ref.names))
+		for i, r := range ref.names {
+			els := shared.NewElements()
+			if i == bad {
+				els.Add(r, 1)
+			}
+			els.Add("x", 1)
+			pre.Push(&shared.DBNode{Header: r, Elements: els})
+		}
+		hResolveAPI(api, N, pre)
+		verifLabel("prelude", "failing-resolution-first")
+	}
 	_, err := hResolveAPI(api, N, db)
 	if chain >= N {
 		verifAssert("deep-chain-rejected", err != nil)
